@@ -20,7 +20,7 @@ from ..ref import cond
 ID = "C01"
 
 CONDS_Q = ["0", "1", "A", "defined(A)", "A == 1"]
-CONDS_T = CONDS_Q + ["!defined(A)", "B", "defined A && defined(B)", "A > B", "!defined(B) || A", "A + B == 2", "A + 0", "A - 1", "A == 1 || A == 2", "A - 1 - 1 == 0"]
+CONDS_T = CONDS_Q + ["!defined(A)", "B", "defined A && defined(B)", "A > B", "!defined(B) || A", "A + B == 2", "A + 0", "A - 1", "A == 1 || A == 2", "A - 1 - 1 == 0", "!defined A && defined B", "A != 0 && 10 / A > 1"]
 DEFS_Q = [("define", "A", ""), ("define", "A", "1"), ("undef", "A")]
 DEFS_T = DEFS_Q + [("define", "A", "0"), ("define", "A", "2"), ("define", "B", "1"), ("undef", "B")]
 
